@@ -64,20 +64,26 @@ Variable O : oracle.
 
 (* call execute(q) until a blocking event; events other than Running are recorded;
    also returns the code of the last Errors event seen *)
-Fixpoint run_until' (fuel : nat) (q : N) (r : rt) (acc : list str) (last : option N)
+Fixpoint run_until_ev (efuel : nat) (fuel : nat) (q : N) (r : rt) (acc : list str) (last : option N)
   : res (rt * list str * option N) :=
-  match fuel with
+  (* fuel bounds the calls that used up their whole quantum (Running); efuel bounds all calls *)
+  match efuel with
   | 0%nat => Ok (r, s2l "TIMEOUT" :: acc, last)
-  | S f =>
+  | S ef =>
       do x <- rt_execute O r q;
       let '(r', e) := x in
       let last' := match e with EvErrors (e1 :: _) => Some (ecode e1) | _ => last end in
       match e with
-      | EvRunning => run_until' f q r' acc last'
+      | EvRunning => match fuel with
+                     | 0%nat => Ok (r', s2l "TIMEOUT" :: acc, last')
+                     | S f => run_until_ev ef f q r' acc last'
+                     end
       | _ => if is_blocking e then Ok (r', show_event e :: acc, last')
-             else run_until' f q r' (show_event e :: acc) last'
+             else run_until_ev ef fuel q r' (show_event e :: acc) last'
       end
   end.
+Definition run_until' (fuel : nat) (q : N) (r : rt) (acc : list str) (last : option N) :=
+  run_until_ev 20000 fuel q r acc last.
 Definition run_until (fuel : nat) (q : N) (r : rt) (acc : list str) : res (rt * list str) :=
   do x <- run_until' fuel q r acc None; Ok (fst x).
 
